@@ -35,6 +35,9 @@ def to_sympy(e, cache):
             r = sp.Symbol(e.decl().name().replace("!", "_"))
         elif k == z3.Z3_OP_UNINTERPRETED and all(z3.is_int_value(a) for a in e.children()):
             r = sp.Symbol(e.decl().name().replace("!", "_") + "_at_" + "_".join(str(a.as_long()) for a in e.children()))
+        elif k == z3.Z3_OP_UNINTERPRETED and e.decl().name() not in ("usqrt", "rpow", "ln", "cos", "sin"):
+            # an array element / opaque function value at a symbolic index: an indeterminate
+            r = sp.Symbol("t%d_%s" % (e.get_id(), e.decl().name().replace("!", "_")))
         else:
             raise ValueError("not a rational function: %s" % e.decl().name())
     else:
